@@ -161,8 +161,12 @@ def pushRanges : List Range → List Text → Res (List Range)
     | .ok ρ => pushRanges (acc ++ [ρ]) ps
     | .panic => .panic
 
-/-- `SequenceOfReferences::set_sqref` on a collection holding `acc` -/
-def setSqref (acc : List Range) (t : Text) : Res (List Range) := pushRanges acc (splitSp t)
+/-- `SequenceOfReferences::set_sqref` on a collection holding `acc`: `split(' ')`, the empty pieces left out
+    (fix 13062503: the empty text is no range), one range per piece -/
+def setSqref (acc : List Range) (t : Text) : Res (List Range) := pushRanges acc ((splitSp t).filter fun p => !p.isEmpty)
+
+/-- before fix 13062503: every piece, the empty ones too (`"".split(' ')` yields one empty piece) -/
+def setSqrefOld (acc : List Range) (t : Text) : Res (List Range) := pushRanges acc (splitSp t)
 
 /-- the `sqref` attribute handling of a fresh object -/
 def readSqref (a : Option Text) : Res (List Range) :=
